@@ -461,6 +461,21 @@ def names_modules():
             ports = [n for it in items if it[0] in ("input", "output") for n in it[1]]
             yield {"name": "top", "ports": ports, "items": items}
         yield {"name": x, "ports": ["a", "b", "y", "z"], "items": base_in + base_out + [["gate", "and", [["U0", ["y", "a", "b"]]]], ["assign", [["z", ("id", "a")]]]]}
+    # a port that is both an input and an output (what the writer emits for an input node marked as output)
+    for outs, extra in ((["a", "y"], []), (["y", "a"], []), (["a", "b", "y"], []), (["a"], [["wire", ["y"]]])):
+        items = [["input", ["a", "b"]], ["output", outs]] + extra + [["gate", "nand", [["U0", ["y", "a", "b"]]]]]
+        yield {"name": "top", "ports": ["a", "b"] + [o for o in outs if o not in ("a", "b")], "items": items}
+        items = [["output", outs], ["input", ["a", "b"]]] + extra + [["gate", "nand", [["U0", ["y", "a", "b"]]]]]
+        yield {"name": "top", "ports": [o for o in outs if o not in ("a", "b")] + ["a", "b"], "items": items}
+    # repeated parity operands from one name family (a, a_0, a_1): the helper-buffer names of one net must not
+    # run into those of another
+    fam = ("a", "a_0", "a_1")
+    for n1, n2 in itertools.permutations(fam, 2):
+        for k1 in (2, 3, 4):
+            for k2 in (2, 3, 4):
+                items = [["input", list(fam)], ["output", ["y", "z"]], ["gate", "xor", [["U0", ["y"] + [n1] * k1]]],
+                         ["gate", "xnor", [["U1", ["z"] + [n2] * k2]]]]
+                yield {"name": "top", "ports": list(fam) + ["y", "z"], "items": items}
     # one operand listed many times in a parity gate: the helper buffers must get the same names in both parsers
     for t in ("xor", "xnor"):
         for k in range(2, 16):
